@@ -70,6 +70,10 @@ type Palette struct {
 	// type-only outputs by type, so C06 counts this as ill-formed; C01 / C13
 	// quantify over all converter sets and include it.
 	LooseOutputs bool
+	// Hostile: see GenPaletteHostile; named labels are always declared by tag
+	// and no function is assembled with BuildFunc (NewValueSet needs
+	// identifier names).
+	Hostile bool
 }
 
 // name draws a name usable for type t (any name unless NameType is set).
@@ -188,7 +192,7 @@ func GenSide(g G, pal Palette, n int, form string, output bool, allowPosRepeat b
 					l.Name = pal.nameFor(g, l.Type)
 				}
 				l.Sub = pal.sub(g)
-				if l.Named() && g.Pct(15) {
+				if l.Named() && (g.Pct(15) || pal.Hostile) {
 					l.Tag = true
 				}
 			}
@@ -220,7 +224,7 @@ type GenFuncOpts struct {
 
 func GenFunc(g G, pal Palette, id int, o GenFuncOpts) FuncSpec {
 	fs := FuncSpec{ID: id}
-	if o.AllowBuilt && g.Pct(12) {
+	if o.AllowBuilt && !pal.Hostile && g.Pct(12) {
 		fs.Built = true
 		fs.InForm, fs.OutForm = FormStruct, FormStruct
 		fs.HasErr = true
@@ -397,7 +401,7 @@ func (b *Builder) Produce(p Label, depth int, maxConvIn int) {
 	}
 	src := CompatSource(g, b.Pal, p)
 	fs := FuncSpec{ID: b.NewID()}
-	if b.Opts.AllowBuilt && g.Pct(12) {
+	if b.Opts.AllowBuilt && !b.Pal.Hostile && g.Pct(12) {
 		fs.Built, fs.InForm, fs.OutForm, fs.HasErr = true, FormStruct, FormStruct, true
 	} else {
 		fs.InForm, fs.OutForm = GenForm(g), GenForm(g)
@@ -793,4 +797,40 @@ func GenRedefineFocus(g G) (*Scenario, []int) {
 		}
 	}
 	return b.Sc, uf
+}
+
+
+// GenPaletteHostile draws a palette whose names and subtypes contain the
+// characters and fragments that label-keyed data structures are sensitive to:
+// "/" together with the (lower-case) String() of the types in play, and names
+// that are not Go identifiers ("my-value", "9x"). Such names can only be
+// declared through struct tags, so every named label uses a tag.
+func GenPaletteHostile(g G) Palette {
+	p := Palette{Types: []int{4, 5}, NameP: 70, SubP: 60}
+	if g.Pct(30) {
+		p.Types = append(p.Types, g.Int(0, 3))
+	}
+	names := []string{"a", "a/engine.t4", "a/engine.t5", "my-value", "9x", "engine.t4"}
+	k := g.Int(2, 4)
+	perm := rapid.Permutation(names).Draw(g.T, "names")
+	p.Names = perm[:k]
+	if g.Pct(70) {
+		p.Names[0] = "a"
+	}
+	p.Subs = []string{"y", "engine.t4/y", "engine.t5/y"}
+	p.Hostile = true
+	return p
+}
+
+// GenHostile: a backward-grown scenario over the hostile label palette.
+func GenHostile(g G, o GenFuncOpts) *Scenario {
+	pal := GenPaletteHostile(g)
+	b := NewBuilder(g, pal, o)
+	b.Sc.Target = GenTarget(g, pal, 3, o)
+	for _, p := range b.Sc.Target.In {
+		b.Produce(p, g.Int(0, 2), 2)
+	}
+	b.Distract(3, 2)
+	b.ShuffleInputs()
+	return b.Sc
 }
